@@ -541,7 +541,7 @@ class Orchestrator:
     A step is labelled (driver, kind, unit): unit = the command-line input the step works on, followed through
     the outputs of earlier steps ('*' for ld), which does not depend on the order in which steps start."""
 
-    QUIESCE_PATIENCE = 10.0     # s without quiescence after which a blocked step is granted anyway (counted)
+    QUIESCE_PATIENCE = 20.0     # s without quiescence after which a blocked step is granted anyway (counted)
 
     def __init__(self, cfg, rundir):
         self.cfg, self.rundir = cfg, rundir
@@ -779,6 +779,16 @@ class Orchestrator:
             sb.destroy()
 
 
+def orch_run(orch, *args):
+    """Orchestrator.run, once more after a harness timeout; then a result marked `timeout` (never judged)."""
+    for _ in range(2):
+        try:
+            return orch.run(*args)
+        except OrchTimeout:
+            pass
+    return {"timeout": True, "diverged": True, "degraded": 0, "trace": [], "granted": []}
+
+
 def explore(run_once, root=(), path_only=False, max_runs=6000):
     """Stateless depth-first exploration of the choice tree below `root`: returns ([(prefix, result)], truncated).
     run_once(prefix) -> Orchestrator.run() result.  path_only: just the default path below root (the caller
@@ -787,6 +797,10 @@ def explore(run_once, root=(), path_only=False, max_runs=6000):
     while stack:
         pre = stack.pop()
         res = run_once(pre)
+        for _ in range(2):      # an overloaded machine can make a run miss its prefix (see QUIESCE_PATIENCE): try again
+            if not res.get("diverged") or res.get("timeout"):
+                break
+            res = run_once(pre)
         out.append((pre, res))
         if path_only:
             break
@@ -888,13 +902,16 @@ def run_shape_orch(cfg, shape, faults, rundir, res, base_steps, cc1_slots, bump)
 
     def sweep(fault):
         def once(pre):
-            return orch.run(lambda sb: sb.populate(shape), [shape.argv()], pre, {0: fault} if fault else {}, shape.inputs)
+            return orch_run(orch, lambda sb: sb.populate(shape), [shape.argv()], pre, {0: fault} if fault else {}, shape.inputs)
         runs, truncated = explore(once)
         if truncated:
             res["cnt"]["order_exploration_truncated"] = res["cnt"].get("order_exploration_truncated", 0) + 1
         nviol = 0
         for pre, r in runs:
             res["runs"] += 1
+            if r.get("timeout"):
+                bump({"timeouts": 1})
+                continue
             o = r["obs"][0]
             o["tmpdir_left"] = r["tmpleft"]
             res["ntemps"] += o["ntemps"]
@@ -975,14 +992,17 @@ def _writer(files):
 
 def solo_result(cfg, rundir, files, argv, fault):
     """One driver alone under the scheduler (its own overlapping steps, if any, in canonical order)."""
-    r = Orchestrator(cfg, rundir).run(_writer(files), [argv], (), {0: fault} if fault else {}, files)
+    r = orch_run(Orchestrator(cfg, rundir), _writer(files), [argv], (), {0: fault} if fault else {}, files)
+    if r.get("timeout"):
+        raise OrchTimeout("solo run of chibicc %s timed out twice" % " ".join(argv))
     return r["obs"][0], r["after"], r["granted"]
 
 
 def _sched_batch(args):
     """One scenario x one fault assignment x a list of subtree roots of the schedule tree.  mode "path": only the
     default path below each root is run (the caller splits the remainder); "dfs": the whole subtree.
-    Returns [(root, choices, diverged, degraded, deviations, roots of the unexplored siblings)]."""
+    Returns [(root, choices (None: harness timeout, not judged), diverged, degraded, deviations, roots of the
+    unexplored siblings)]."""
     cfg, scen, fault_assign, roots, mode, isolate, wid = args
     if isolate:
         isolate_tmp(cfg)
@@ -998,11 +1018,14 @@ def _sched_batch(args):
         solos.append((o["status"], {p: v for p, v in after.items() if p not in files}))
 
     def once(pre):
-        return orch.run(_writer(files), cmds, pre, fault_assign, files)
+        return orch_run(orch, _writer(files), cmds, pre, fault_assign, files)
     out = []
     for root in roots:
         runs, truncated = explore(once, root, path_only=(mode == "path"))
         for pre, r in runs:
+            if r.get("timeout"):
+                out.append((pre, None, True, 0, [], []))
+                continue
             out.append((pre, tuple(c for _, c in r["trace"]), r["diverged"] or truncated, r["degraded"],
                         _sched_judge(files, solos, r), siblings(pre, r) if mode == "path" else []))
     return out
@@ -1217,6 +1240,9 @@ def run(ctx):
 
     if counters.get("timeouts"):
         ctx.incomplete("%d driver runs hit the %d s harness timeout and were not judged" % (counters["timeouts"], RUN_TIMEOUT))
+    if counters.get("schedule_divergences"):
+        ctx.incomplete("%d completion-order runs of part 1 could not be steered along their prefix (after 2 retries)"
+                       % counters["schedule_divergences"])
     if orch_errors:
         # the step scheduler failed on a driver that overlaps its own steps; the free-running results stand in
         if not nconfirmed:
@@ -1290,7 +1316,7 @@ def run_part2(ctx, cfg):
     split_levels = {"quick": 1, "thorough": 2}[ctx.tier]
     _debug(ctx, "part 2: %d (scenario, fault) pairs" % len(frontier))
     level, wid = 0, 0
-    divergences = degraded = 0
+    divergences = degraded = timeouts = 0
     while frontier:
         mode = "path" if level < split_levels else "dfs"
         if ctx.out_of_time(reserve=20):
@@ -1301,7 +1327,7 @@ def run_part2(ctx, cfg):
             per.setdefault((scen, tuple(sorted(fa.items()))), []).append(root)
         jobs = []
         for (scen, fkey), roots in per.items():
-            ngroups = min(len(roots), 4 if level else 1)
+            ngroups = min(len(roots), core.NPROC if mode == "dfs" else 4)
             for g in range(ngroups):
                 jobs.append((cfg, scen, dict(fkey), roots[g::ngroups], mode, True, wid))
                 wid += 1
@@ -1309,9 +1335,12 @@ def run_part2(ctx, cfg):
         for job, res in zip(jobs, core.pmap(_sched_batch, jobs)):
             scen, fa = job[1], job[2]
             for root, choices, diverged, deg, devs, sibs in res:
-                sched_runs += 1
                 divergences += int(diverged)
                 degraded += deg
+                if choices is None:
+                    timeouts += 1
+                    continue
+                sched_runs += 1
                 eff_seen.add((scen, tuple(sorted(fa.items())), choices))
                 for who, dv, detail in devs:
                     sched_viol.append((scen, fa, choices, dv, detail))
@@ -1351,7 +1380,10 @@ def run_part2(ctx, cfg):
                                         "CHIBICC_DIR=<tree> python3 checks/c14.py --replay-case case.json\n"}, replay=REPLAY)
     ctx.cover(schedules=sched_runs, schedules_distinct_effective=len(eff_seen), schedule_scenarios=len(SCEN_PLAN[ctx.tier]))
     if divergences:
+        # such a run is judged like any other (it is a real execution), but the subtrees hanging off it are not walked
         ctx.cover(schedule_divergences=divergences)
+        ctx.incomplete("%d schedule runs could not be steered along their prefix (after 2 retries; %d hit the harness "
+                       "timeout): the subtrees below them were not explored" % (divergences, timeouts))
     if degraded:
         ctx.cover(quiescence_degraded=degraded)
     ctx.cover(evaluations=sched_runs)
@@ -1392,1375 +1424,16 @@ def replay_case(path):
 
 
 if __name__ == "__main__":
-    sys.path.insert(0, os.path.dirname(os.path.dirname(os.path.abspath(__file__))))
-from vlib import core
-from models import c14_driver as M
-
-LEVEL = "fault_enumeration"
-BUDGET = {"quick": 300, "thorough": 1800}
-
-FAULTS = {"quick": ["exit1", "exit3", "segv", "kill", "noexec", "partial"],
-          "thorough": ["exit1", "exit3", "segv", "kill", "noexec", "partial"]}
-ALL_KINDS = ["c", "c_pp", "c_parse", "c_gen", "c_asm", "c_nx", "c_dir", "s", "s_bad", "s_nx", "o", "o_bad", "o_nx"]
-# input-kind alphabets per list length: every list of that length over that alphabet, in every mode / -o / output
-# location.  Lists of two contain every way a unit can fail (front end: c_pp c_gen; assembler: c_asm s_bad; linker:
-# o_bad; unreadable/missing) in first position before a good unit and in last position after one.
-ALPHABET = {
-    "quick": {1: ALL_KINDS, 2: ["c", "c_pp", "c_gen", "c_asm", "c_nx", "c_dir", "s", "s_bad", "o", "o_bad"]},
-    "thorough": {1: ALL_KINDS, 2: ALL_KINDS, 3: ["c", "c_gen", "c_asm", "c_nx", "s", "o"]},
-}
-# Failure kinds that must occur in a non-last position followed by good units only (vacuity guard): a failing step in
-# the middle of a command whose later steps succeed is where a driver that collects statuses late loses one.
-NONLAST_FAILURE_KINDS = frozenset(["c_pp", "c_asm", "s_bad", "o_bad"])
-
-
-def _one_failing_unit_lists(n, fill):
-    """Lists of n inputs with exactly one failing unit (each failure kind, each position), the rest `fill`."""
-    return [tuple(bad if i == pos else f for i in range(n)) for bad in sorted(NONLAST_FAILURE_KINDS)
-            for pos in range(n) for f in fill]
-
-
-# Further input lists, run in the modes that start an assembler / linker (-c, link) x -o {absent, file}, writable
-# directory: three inputs with one failing unit in first, middle and last position.
-EXTRA_LISTS = {
-    "quick": _one_failing_unit_lists(3, ["c"]),
-    "thorough": [l for l in _one_failing_unit_lists(3, ["c", "s", "o"]) if not set(l) <= set(ALPHABET["thorough"][3])],
-}
-GOOD_KINDS = frozenset(["c", "s", "o"])
-RUN_TIMEOUT = 60
-
-
-# ----------------------------------------------------------------------------------------------------
-# tools: shim, interposer, input materials
-# ----------------------------------------------------------------------------------------------------
-def build_tools(chibicc, include, workroot):
-    """Build shim + interposer + input materials; returns the picklable configuration for workers."""
-    tools = os.path.join(workroot, "tools")
-    os.makedirs(tools, exist_ok=True)
-    h = os.path.join(core.VERIF, "harness")
-    core.sh(["gcc", "-O2", "-shared", "-fPIC", "-o", os.path.join(tools, "c14_preload.so"),
-             os.path.join(h, "c14_preload.c"), "-ldl"], check=True)
-    core.sh(["gcc", "-O2", "-o", os.path.join(tools, "c14_shim"), os.path.join(h, "c14_shim.c")], check=True)
-    real_as, real_ld = shutil.which("as"), shutil.which("ld")
-    if not real_as or not real_ld:
-        raise core.HarnessError("as/ld not found on PATH")
-    mats = {}
-    for slot in range(3):
-        for k in ("c", "c_pp", "c_parse", "c_gen", "c_asm"):
-            mats[M.in_name(k, slot)] = M.c_source(k, slot).encode()
-        for k in ("s", "s_bad"):
-            mats[M.in_name(k, slot)] = M.s_source(k, slot).encode()
-        for k in ("o", "o_bad"):
-            sp = os.path.join(tools, "m.s")
-            with open(sp, "w") as f:
-                f.write(M.s_source(k, slot))
-            op = os.path.join(tools, "m.o")
-            core.sh([real_as, "-o", op, sp], check=True)
-            mats[M.in_name(k, slot)] = open(op, "rb").read()
-    cfg = {"chibicc": chibicc, "include": include, "shim": os.path.join(tools, "c14_shim"),
-           "preload": os.path.join(tools, "c14_preload.so"), "as": real_as, "ld": real_ld,
-           "root": workroot, "mats": mats}
-    selftest_interposer(cfg)
-    return cfg
-
-
-def selftest_interposer(cfg):
-    """The interposer must load and see the whole family; otherwise the check is broken (exit 2)."""
-    d = os.path.join(cfg["root"], "selftest")
-    os.makedirs(d, exist_ok=True)
-    src = os.path.join(d, "t.c")
-    with open(src, "w") as f:
-        f.write('#define _GNU_SOURCE\n#include <stdio.h>\n#include <stdlib.h>\n#include <unistd.h>\n#include <fcntl.h>\n#include <sys/wait.h>\n'
-                'int main(int c,char**v){char a[256],b[256],e[300];snprintf(a,256,"%s/ta-XXXXXX",v[1]);snprintf(b,256,"%s/tb",v[1]);\n'
-                'int fd=mkstemp(a);close(fd);FILE*f=fopen(b,"w");fclose(f);snprintf(e,300,"%s2",b);rename(b,e);unlink(a);\n'
-                'fd=open(b,O_CREAT|O_WRONLY,0600);close(fd);remove(b);\n'
-                'pid_t p=fork();if(!p)_exit(0);pid_t q=fork();if(!q)_exit(0);waitpid(q,0,0);wait(0);return 0;}\n')
-    exe = os.path.join(d, "t")
-    core.sh(["gcc", "-o", exe, src], check=True)
-    log = os.path.join(d, "trace.log")
-    env = {"LD_PRELOAD": cfg["preload"], "C14_TRACE": log, "PATH": "/usr/bin:/bin"}
-    p = subprocess.run([exe, d], env=env, stdout=subprocess.PIPE, stderr=subprocess.PIPE)
-    recs = read_trace(log)
-    ops = [r[1] for r in recs]
-    kids = [r[2] for r in recs if r[1] == "fk"]
-    if (p.returncode != 0 or p.stderr or ops != ["init", "mk", "cr", "mv", "rm", "cr", "rm", "fk", "fk", "wt", "wt"]
-            or [r[2] for r in recs if r[1] == "wt"] != kids[::-1]):
-        raise core.HarnessError("LD_PRELOAD interposer self-test failed: rc=%s err=%r ops=%s" % (p.returncode, p.stderr[:200], ops))
-    os.unlink(os.path.join(d, "tb2"))
-
-
-def read_trace(path):
-    recs = []
-    try:
-        with open(path, "rb") as f:
-            for line in f.read().decode("utf-8", "surrogateescape").splitlines():
-                parts = line.split("\t")
-                if len(parts) >= 3 and parts[0].isdigit():
-                    recs.append((int(parts[0]), parts[1], parts[2], parts[3] if len(parts) > 3 else None))
-    except FileNotFoundError:
-        pass
-    return recs
-
-
-# ----------------------------------------------------------------------------------------------------
-# private /tmp per worker process
-# ----------------------------------------------------------------------------------------------------
-_ISOLATED = None
-
-
-def isolate_tmp(cfg):
-    """Give this (pool worker) process a private, empty /tmp through a mount namespace, with the check's work
-    directory still visible at its usual path.  Drivers run by different workers then cannot meet in /tmp, so
-    part 1 is deterministic even for a driver with colliding temporary names (interference between drivers is
-    explored deliberately, and deterministically, in part 2).  Returns False where namespaces are unavailable;
-    the check then relies on serial confirmation of every violation."""
-    global _ISOLATED
-    if _ISOLATED is not None:
-        return _ISOLATED
-    _ISOLATED = False
-    if os.environ.get("C14_NO_ISOLATION"):
-        return False
-    import ctypes
-    libc = ctypes.CDLL(None, use_errno=True)
-    CLONE_NEWNS, MS_BIND, MS_REC, MS_PRIVATE = 0x00020000, 0x1000, 0x4000, 1 << 18
-    root = cfg["root"]
-    import tempfile
-    priv = tempfile.mkdtemp(prefix="ptmp", dir=root)
-    rel = os.path.relpath(root, "/tmp")
-    os.makedirs(priv if rel.startswith("..") else os.path.join(priv, rel), exist_ok=True)
-    if libc.unshare(CLONE_NEWNS) != 0:
-        return False
-    if libc.mount(b"none", b"/", None, MS_REC | MS_PRIVATE, None) != 0:
-        return False
-    if not rel.startswith(".."):
-        if libc.mount(root.encode(), os.path.join(priv, rel).encode(), None, MS_BIND, None) != 0:
-            return False
-    if libc.mount(priv.encode(), b"/tmp", None, MS_BIND | MS_REC, None) != 0:
-        raise core.HarnessError("could not mount a private /tmp")
-    if not os.path.exists(cfg["chibicc"]) or len(os.listdir("/tmp")) > 1:
-        raise core.HarnessError("private /tmp is not set up as intended")
-    _ISOLATED = True
-    return True
-
-
-# ----------------------------------------------------------------------------------------------------
-# one driver invocation in a sandbox
-# ----------------------------------------------------------------------------------------------------
-def snapshot(d):
-    snap = {}
-    for root, dirs, files in os.walk(d):
-        for n in dirs:
-            snap[os.path.relpath(os.path.join(root, n), d)] = ("d",)
-        for n in files:
-            p = os.path.join(root, n)
-            try:
-                with open(p, "rb") as f:
-                    snap[os.path.relpath(p, d)] = ("f", f.read())
-            except OSError:
-                snap[os.path.relpath(p, d)] = ("?",)
-    return snap
-
-
-class Sandbox:
-    """<run>/d (cwd), <run>/tmp (TMPDIR), <run>/bin (shim dir), steps.log, trace.log"""
-
-    def __init__(self, cfg, run):
-        self.cfg, self.run = cfg, run
-        shutil.rmtree(run, ignore_errors=True)
-        self.d = os.path.join(run, "d")
-        os.makedirs(self.d)
-        os.mkdir(os.path.join(run, "tmp"))
-        self.nruns = 0
-
-    def populate(self, shape):
-        for name, kind in zip(shape.inputs, shape.kinds):
-            p = os.path.join(self.d, name)
-            if kind == "c_dir":
-                os.mkdir(p)
-            elif kind.endswith("_nx"):
-                pass
-            else:
-                with open(p, "wb") as f:
-                    f.write(self.cfg["mats"][name])
-        if shape.outloc == "sent":
-            for o in shape.possible_outputs():
-                with open(os.path.join(self.d, o), "wb") as f:
-                    f.write(M.SENTINEL)
-        elif shape.outloc == "unw" and not shape.o:
-            for o in shape.possible_outputs():
-                os.mkdir(os.path.join(self.d, o))
-
-    def prepare_invocation(self, tag, fault=None, sched=None, ident=None):
-        """Returns (argv prefix, env, paths) for one driver invocation sharing this sandbox's directory.
-        `fault` = (kind, ordinal, how) is handed to the shims through the environment (under a scheduler the
-        orchestrator delivers every fault except noexec itself, in its reply to the step's announcement)."""
-        cfg = self.cfg
-        inv = os.path.join(self.run, "inv_" + tag)
-        os.makedirs(inv)
-        bindir = os.path.join(inv, "bin")
-        os.mkdir(bindir)
-        os.symlink(cfg["include"], os.path.join(bindir, "include"))
-        missing = None
-        if fault and fault[2] == "noexec" and fault[1] == 1:
-            missing = "chibicc" if fault[0] == "cc1" else fault[0]
-        for n in ("chibicc", "as", "ld"):
-            if n != missing:
-                os.symlink(cfg["shim"], os.path.join(bindir, n))
-        open(os.path.join(inv, "steps.log"), "w").close()
-        env = {"PATH": bindir, "LD_PRELOAD": cfg["preload"], "C14_TRACE": os.path.join(inv, "trace.log"),
-               "C14_RUN": inv, "C14_REAL_CHIBICC": cfg["chibicc"], "C14_REAL_AS": cfg["as"], "C14_REAL_LD": cfg["ld"],
-               "C14_SHIMDIR": bindir, "TMPDIR": os.path.join(self.run, "tmp"), "LC_ALL": "C"}
-        if fault:
-            env["C14_FAULT"] = "%s:%d:%s" % tuple(fault)
-        if sched:
-            env["C14_SCHED"] = sched
-            env["C14_ID"] = ident
-        prefix = [cfg["shim"], "--launch", cfg["chibicc"], os.path.join(bindir, "chibicc")]
-        return prefix, env, inv
-
-    def collect(self, inv, status, out, err):
-        steps, ends = [], {}
-        open_steps, overlap = set(), False      # B/E records are in event order (written under a lock)
-        with open(os.path.join(inv, "steps.log"), errors="replace") as f:
-            for line in f:
-                w = line.split()
-                if w[:1] == ["B"]:
-                    steps.append({"kind": w[1], "k": int(w[2]), "out": w[3], "argv": w[5:]})
-                    overlap = overlap or bool(open_steps)
-                    open_steps.add((w[1], int(w[2])))
-                elif w[:1] == ["E"]:
-                    ends[(w[1], int(w[2]))] = w[3]
-                    open_steps.discard((w[1], int(w[2])))
-        trace = read_trace(os.path.join(inv, "trace.log"))
-        exes = {}
-        temps = {}
-        run_prefix = self.run + "/"
-        tmpdir = os.path.join(self.run, "tmp") + "/"
-
-        def is_temp_loc(p):
-            if p.startswith(tmpdir):
-                return True
-            return (p.startswith("/tmp/") or p.startswith("/var/tmp/")) and not p.startswith(run_prefix)
-        driver_seen = False
-        unreaped = {}       # pid of a process running the driver binary -> children forked and not yet reaped
-        real_driver = os.path.realpath(self.cfg["chibicc"])
-        for pid, op, a, b in trace:
-            if op == "init":
-                exes[pid] = os.path.basename(a)
-                if os.path.realpath(a) == real_driver:
-                    driver_seen = True
-                    unreaped.setdefault(pid, set())
-            elif op == "fk":
-                if pid in unreaped:
-                    # a second child while one is unreaped: the driver runs steps concurrently (program order of
-                    # the driver itself - does not depend on how fast the steps are)
-                    overlap = overlap or bool(unreaped[pid])
-                    unreaped[pid].add(a)
-            elif op == "wt":
-                if pid in unreaped:
-                    unreaped[pid].discard(a)
-                    unreaped[pid].discard("0")
-            elif op == "mk":
-                temps[a] = exes.get(pid, "?")
-            elif op == "cr":
-                if is_temp_loc(a):
-                    temps.setdefault(a, exes.get(pid, "?"))
-            elif op == "rm":
-                temps.pop(a, None)
-            elif op == "mv":
-                who = temps.pop(a, None)
-                if is_temp_loc(b):
-                    temps[b] = who or exes.get(pid, "?")
-        leaks = sorted((who, p) for p, who in temps.items() if os.path.lexists(p))
-        for p, who in list(temps.items()):    # do not litter the machine with what a defective driver leaves
-            if os.path.lexists(p) and not p.startswith(run_prefix):
-                try:
-                    os.unlink(p)
-                except OSError:
-                    pass
-        ntemps = len(set(r[2] for r in trace if r[1] == "mk" or (r[1] == "cr" and is_temp_loc(r[2]))))
-        # children the driver never reaped: it may have left before they were done (looked at under the scheduler)
-        overlap = overlap or any(unreaped.values())
-        return {"status": status, "stdout": out, "stderr": err, "steps": steps, "ends": ends, "leaks": leaks,
-                "driver_seen": driver_seen, "ntemps": ntemps, "overlap": overlap}
-
-    def run_one(self, shape_argv, fault=None):
-        self.nruns += 1
-        prefix, env, inv = self.prepare_invocation("%d" % self.nruns, fault)
-        try:
-            p = subprocess.run(prefix + shape_argv, cwd=self.d, env=env, stdin=subprocess.DEVNULL,
-                               stdout=subprocess.PIPE, stderr=subprocess.PIPE, timeout=RUN_TIMEOUT)
-            status, out, err = p.returncode, p.stdout, p.stderr
-        except subprocess.TimeoutExpired as e:
-            status, out, err = "timeout", e.stdout or b"", e.stderr or b""
-        obs = self.collect(inv, status, out, err)
-        obs["tmpdir_left"] = sorted(os.listdir(os.path.join(self.run, "tmp")))
-        return obs
-
-    def destroy(self):
-        shutil.rmtree(self.run, ignore_errors=True)
-
-
-# ----------------------------------------------------------------------------------------------------
-# judging one observation against the model
-# ----------------------------------------------------------------------------------------------------
-def elf_type(b):
-    if len(b) < 18 or b[:4] != b"\x7fELF":
-        return None
-    return b[16] | (b[17] << 8)
-
-
-def fault_fired(fault, obs, base_steps):
-    """fault = (kind, ordinal, how): k-th step of that kind, injected through the environment (free-running
-    driver); (kind, unit name, how): the step of that kind working on that input, injected by the orchestrator."""
-    if not fault:
-        return False
-    kind, k, how = fault
-    if isinstance(k, str):
-        return bool(obs.get("fault_delivered"))
-    seen = set((s["kind"], s["k"]) for s in obs["steps"])
-    if how != "noexec":
-        return obs["ends"].get((kind, k)) == "fault:" + how
-    if (kind, k) in seen or (kind, k) not in base_steps:
-        return False
-    idx = base_steps.index((kind, k))
-    return all(s in seen for s in base_steps[:idx])
-
-
-def judge(shape, fault, obs, before, after, base_steps=None, cc1_slots=None):
-    """Returns (list of (deviation, detail), counters)."""
-    devs, cnt = [], {}
-    if obs["status"] == "timeout":
-        return [], {"timeouts": 1}
-    if not obs["driver_seen"]:
-        raise core.HarnessError("the interposer did not load into the driver process (no init record for %s)" % shape.key())
-    if str(97 << 8) in obs["ends"].values() or b"c14_shim:" in obs["stderr"]:
-        raise core.HarnessError("shim failure in %s: %s" % (shape.key(), obs["stderr"][-300:]))
-    st = obs["status"]
-    fired = fault_fired(fault, obs, base_steps or [])
-    if fault and not fired:
-        cnt["fault_not_reached"] = 1
-    faulted_slots = set()
-    if fired and fault[0] == "cc1":
-        if isinstance(fault[1], str):
-            if shape.slot_of_input(fault[1]) is not None:
-                faulted_slots.add(shape.slot_of_input(fault[1]))
-        elif cc1_slots and fault[1] - 1 < len(cc1_slots) and cc1_slots[fault[1] - 1] is not None:
-            faulted_slots.add(cc1_slots[fault[1] - 1])
-
-    # 1. exit status
-    if (shape.ok is False or fired) and st == 0:
-        devs.append(("exit0-despite-failure", "exit status 0"))
-    elif st == 0 and obs.get("outstanding_at_exit"):
-        # seen only under the step scheduler: the driver left with status 0 while a step it had started was still
-        # waiting to run, so neither its status nor its output can be what the exit status promises
-        devs.append(("exit0-with-step-outstanding", "exit status 0 before %s had run" % ", ".join(obs["outstanding_at_exit"])))
-    if shape.ok is True and not fault and st != 0:
-        devs.append(("nonzero-exit-without-failure", "exit status %s; stderr: %s" % (st, obs["stderr"][-300:].decode("utf-8", "replace"))))
-
-    # 2. outputs of translation units that failed to compile
-    failed_outs = shape.failed_tu_outputs(faulted_slots)
-    if shape.mode != "link":
-        # an output path shared with a translation unit that compiled is legitimately written by that one
-        good = set(shape.tu_out[i] for i in shape.tu_out
-                   if not (M.cc1_fails(shape.kinds[i], shape.mode) or i in faulted_slots))
-        failed_outs -= good
-    flagged = set()
-    for p in sorted(failed_outs):
-        if before.get(p) != after.get(p):
-            if fired and fault[2] == "partial" and fault[0] == "cc1" and shape.mode in ("S", "E"):
-                cnt["unjudged_partial_write_is_the_fault"] = 1   # the injected fault itself is the write
-                flagged.add(p)
-                continue
-            if p in before and p not in after:
-                # a driver may delete a stale output when its translation unit fails (gcc does); the property
-                # forbids creating and overwriting, not this
-                cnt["failed_tu_stale_output_removed"] = cnt.get("failed_tu_stale_output_removed", 0) + 1
-                flagged.add(p)
-                continue
-            devs.append(("failed-tu-output-created" if p not in before else "failed-tu-output-overwritten",
-                         "%s: %s -> %s" % (p, show(before.get(p)), show(after.get(p)))))
-            flagged.add(p)
-
-    # 3. temporaries
-    if obs["leaks"]:
-        devs.append(("temp-left", "left behind: %s" % ", ".join("%s (made by %s)" % (p, w) for w, p in obs["leaks"])))
-    elif obs.get("tmpdir_left"):
-        devs.append(("temp-left", "left in $TMPDIR: %s" % obs["tmpdir_left"]))
-
-    # 4. the directory changes by exactly the requested outputs
-    changed = sorted(p for p in set(before) | set(after) if before.get(p) != after.get(p))
-    allowed = set(shape.outputs)
-    for p in changed:
-        if p in flagged:
-            continue
-        if p in shape.inputs:
-            devs.append(("input-modified", "%s: %s -> %s" % (p, show(before.get(p)), show(after.get(p)))))
-        elif p not in allowed:
-            ext = "-o-path" if p == shape.opath else "a.out" if p == "a.out" else (os.path.splitext(p)[1] or "other")
-            devs.append(("unexpected-file|%s" % ext, "%s: %s -> %s (requested outputs: %s)" % (p, show(before.get(p)), show(after.get(p)), shape.outputs)))
-    if shape.ok is True and not fault and st == 0:
-        for p in shape.outputs:
-            a = after.get(p)
-            if a is None or a[0] != "f" or a[1] == M.SENTINEL or not a[1]:
-                devs.append(("missing-output", "%s: %s" % (p, show(a))))
-                continue
-            bad = content_problem(shape, p, a[1])
-            if bad:
-                devs.append(("output-wrong-content", "%s: %s" % (p, bad)))
-        if shape.to_stdout:
-            for i in [j for j, k in enumerate(shape.kinds) if k in M.C_KINDS]:
-                if M.sym(i).encode() not in obs["stdout"]:
-                    devs.append(("output-wrong-content", "stdout lacks the text of input %d" % i))
-                    break
-    return devs, cnt
-
-
-def show(x):
-    if x is None:
-        return "absent"
-    if x[0] == "d":
-        return "directory"
-    if x[0] == "f":
-        return "sentinel" if x[1] == M.SENTINEL else "file(%d bytes)" % len(x[1])
-    return "?"
-
-
-def content_problem(shape, p, data):
-    slots = [i for i in shape.tu_out if shape.tu_out[i] == p]
-    if shape.mode == "link":
-        if elf_type(data) not in (2, 3):
-            return "not an ELF executable"
-        slots = range(len(shape.kinds))
-    elif shape.mode == "c":
-        if elf_type(data) != 1:
-            return "not a relocatable ELF object"
-    for i in slots:
-        if M.sym(i).encode() not in data:
-            return "does not contain input %d (%s)" % (i, shape.inputs[i])
-    return None
-
-
-# ----------------------------------------------------------------------------------------------------
-# step scheduler: N drivers in one directory, their subprocess steps granted one at a time in a chosen order
-# ----------------------------------------------------------------------------------------------------
-class OrchTimeout(core.HarnessError):
-    pass
-
-
-_SUBREAPER = False
-
-
-def become_subreaper():
-    """Orphans of the drivers (a step still blocked in its shim when its driver exits) are re-parented to this
-    process, so they stay visible in its process tree and can be granted, awaited and reaped."""
-    global _SUBREAPER
-    if not _SUBREAPER:
-        import ctypes
-        ctypes.CDLL(None, use_errno=True).prctl(36, 1, 0, 0, 0)      # PR_SET_CHILD_SUBREAPER
-        _SUBREAPER = True
-
-
-def _pstate(pid):
-    try:
-        with open("/proc/%d/stat" % pid, "rb") as f:
-            st = f.read()
-    except OSError:
-        return None
-    i = st.rfind(b")")
-    return chr(st[i + 2]) if 0 <= i and i + 2 < len(st) else None
-
-
-def _pchildren(pid):
-    out = []
-    try:
-        for t in os.listdir("/proc/%d/task" % pid):
-            try:
-                with open("/proc/%d/task/%s/children" % (pid, t)) as f:
-                    out += [int(x) for x in f.read().split()]
-            except (OSError, ValueError):
-                pass
-    except OSError:
-        pass
-    return out
-
-
-class _Pending:
-    __slots__ = ("conn", "pid", "driver", "kind", "k", "unit", "label")
-
-
-def label_text(label):
-    return "%d:%s(%s)" % tuple(label)
-
-
-class Orchestrator:
-    """Runs N drivers in one directory.  Every subprocess step of every driver blocks in its shim until granted;
-    a driver may have any number of steps blocked at once (one that overlaps the steps of independent
-    translation units has).  The orchestrator lets the system run until it is quiescent - every live process below
-    this one is a blocked shim, or sleeps waiting for live children - and then grants exactly one of the blocked
-    steps (a transition), waits until that step's process is gone, and repeats.  A run is therefore a function of the
-    sequence of choices; `prefix` prescribes the first choices, afterwards the smallest label is taken.
-    A step is labelled (driver, kind, unit): unit = the command-line input the step works on, followed through
-    the outputs of earlier steps ('*' for ld), which does not depend on the order in which steps start."""
-
-    QUIESCE_PATIENCE = 10.0     # s without quiescence after which a blocked step is granted anyway (counted)
-
-    def __init__(self, cfg, rundir):
-        self.cfg, self.rundir = cfg, rundir
-
-    def run(self, prepare, cmds, prefix=(), faults=None, user_files=()):
-        """prepare(sandbox) populates the directory; cmds: argv per driver; prefix: sequence of labels (or bare
-        driver indices = that driver's smallest blocked step); faults: {driver: (kind, unit | ordinal, how)}.
-        Returns a dict: obs (per driver), before, after, trace [(enabled labels, chosen)], granted [(label, k)],
-        tmpleft, diverged (the prefix could not be followed), degraded."""
-        faults = faults or {}
-        user_files = set(user_files)
-        become_subreaper()
-        me = os.getpid()
-        foreign = set(_pchildren(me))       # children this process had before: not ours to watch or reap
-        driver_pids = set()
-        sb = Sandbox(self.cfg, self.rundir)
-        procs, pending, orphans = [], {}, set()
-        srv = None
-        try:
-            prepare(sb)
-            before = snapshot(sb.d)
-            sockp = os.path.join(sb.run, "sched.sock")
-            srv = socket.socket(socket.AF_UNIX, socket.SOCK_STREAM)
-            srv.bind(sockp)
-            srv.listen(64)
-            invs = []
-            for i, argv in enumerate(cmds):
-                f = faults.get(i)
-                envf = f if f and f[2] == "noexec" else None
-                pre, env, inv = sb.prepare_invocation("d%d" % i, envf, sched=sockp, ident=str(i))
-                invs.append(inv)
-                with open(os.path.join(inv, "stdout"), "wb") as so, open(os.path.join(inv, "stderr"), "wb") as se:
-                    procs.append(subprocess.Popen(pre + argv, cwd=sb.d, env=env, stdin=subprocess.DEVNULL, stdout=so, stderr=se))
-            driver_pids.update(p.pid for p in procs)
-            deadline = time.time() + RUN_TIMEOUT
-            stepinfo = [[] for _ in cmds]       # per driver: dict(kind, k, out, unit) of every announced step
-            used = set()
-            trace, granted = [], []
-            delivered, cancelled = set(), []
-            outstanding = {}
-            state = {"degraded": 0, "diverged": False}
-
-            def unit_of(i, kind, k):
-                argv, out = [], "-"
-                with open(os.path.join(invs[i], "steps.log"), errors="replace") as f:
-                    for line in f:
-                        w = line.split()
-                        if w[:3] == ["B", kind, str(k)]:
-                            out, argv = w[3], w[6:]
-                if kind == "ld":
-                    return "*", out
-                skip = set(j + 1 for j, a in enumerate(argv) if a in ("-o", "-cc1-output"))
-                cand = None
-                if "-cc1-input" in argv[:-1]:
-                    c = os.path.basename(argv[argv.index("-cc1-input") + 1])
-                    cand = c if c in user_files else None
-                if cand is None:
-                    hits = set(os.path.basename(a) for j, a in enumerate(argv)
-                               if j not in skip and not a.startswith("-") and os.path.basename(a) in user_files)
-                    if len(hits) == 1:
-                        cand = hits.pop()
-                if cand is None:
-                    for j, a in enumerate(argv):
-                        if j in skip or a == "-":
-                            continue
-                        src = [t for t in stepinfo[i] if t["out"] == a]
-                        if src:
-                            cand = src[-1]["unit"]
-                            break
-                return cand or "k%d" % k, out
-
-            def announce(c):
-                buf = b""
-                c.settimeout(5.0)
-                try:
-                    while not buf.endswith(b"\n"):
-                        ch = c.recv(256)
-                        if not ch:
-                            break
-                        buf += ch
-                except socket.timeout:
-                    pass
-                c.settimeout(None)
-                w = buf.decode("ascii", "replace").split()
-                if len(w) != 4 or not w[0].isdigit() or not w[1].isdigit() or not w[3].isdigit() or int(w[0]) >= len(cmds):
-                    raise core.HarnessError("bad step announcement %r" % buf)
-                p = _Pending()
-                p.conn, p.driver, p.pid, p.kind, p.k = c, int(w[0]), int(w[1]), w[2], int(w[3])
-                base, out = unit_of(p.driver, p.kind, p.k)
-                p.unit, n = base, 1
-                while (p.driver, p.kind, p.unit) in used:
-                    n += 1
-                    p.unit = "%s#%d" % (base, n)
-                p.label = (p.driver, p.kind, p.unit)
-                used.add(p.label)
-                stepinfo[p.driver].append({"kind": p.kind, "k": p.k, "out": out, "unit": p.unit})
-                pending[p.label] = p
-
-            def live(pid):
-                return _pstate(pid) not in (None, "Z", "X")
-
-            def quiet_below(pid, blocked):
-                st = _pstate(pid)
-                if st in (None, "Z", "X") or pid in blocked:
-                    return True
-                if st != "S":
-                    return False
-                kids = [c for c in _pchildren(pid) if live(c)]
-                return bool(kids) and all(quiet_below(c, blocked) for c in kids)
-
-            def tree_quiet():
-                blocked = set(p.pid for p in pending.values())
-                for c in _pchildren(me):
-                    if c in foreign:
-                        continue
-                    if c not in driver_pids:
-                        orphans.add(c)
-                    if not quiet_below(c, blocked):
-                        return False
-                return True
-
-            def settle():
-                quiet, t0 = 0, time.time()
-                while True:
-                    now = time.time()
-                    if now > deadline:
-                        raise OrchTimeout("step scheduling timed out (%d steps blocked)" % len(pending))
-                    conns = [p.conn for p in pending.values()]
-                    r, _, _ = select.select([srv] + conns, [], [], 0.0004)
-                    if r:
-                        quiet = 0
-                        for x in r:
-                            if x is srv:
-                                c, _ = srv.accept()
-                                announce(c)
-                            else:       # a blocked shim died (its driver killed it): the step is withdrawn
-                                for lab, p in list(pending.items()):
-                                    if p.conn is x:
-                                        x.close()
-                                        del pending[lab]
-                                        cancelled.append(lab)
-                        continue
-                    if tree_quiet():
-                        quiet += 1
-                        if quiet >= 2:
-                            return
-                    else:
-                        quiet = 0
-                        if pending and now - t0 > self.QUIESCE_PATIENCE:
-                            state["degraded"] += 1
-                            return
-
-            def grant(label):
-                p = pending.pop(label)
-                f = faults.get(p.driver)
-                how = None
-                if f and f[2] != "noexec" and f[0] == p.kind and (f[1] == p.unit or f[1] == p.k) and p.driver not in delivered:
-                    how = f[2]
-                    delivered.add(p.driver)
-                p.conn.sendall(("fault:%s\n" % how if how else "go\n").encode())
-                while True:                 # end of file = the shim's process has closed its descriptors (is exiting)
-                    if time.time() > deadline:
-                        raise OrchTimeout("step %s timed out" % label_text(label))
-                    r, _, _ = select.select([p.conn], [], [], 1.0)
-                    if r and not p.conn.recv(64):
-                        break
-                p.conn.close()
-                while live(p.pid):
-                    if time.time() > deadline:
-                        raise OrchTimeout("step %s does not terminate" % label_text(label))
-                    time.sleep(0.0002)
-                granted.append((label, p.k))
-
-            while True:
-                settle()
-                for i, pr in enumerate(procs):
-                    if i not in outstanding and pr.poll() is not None:
-                        outstanding[i] = [label_text(l) for l in sorted(pending) if l[0] == i]
-                if not pending:
-                    if all(pr.poll() is not None for pr in procs):
-                        break
-                    continue
-                enabled = tuple(sorted(pending))
-                choice = enabled[0]
-                if len(trace) < len(prefix):
-                    want = prefix[len(trace)]
-                    if isinstance(want, int):
-                        want = next((l for l in enabled if l[0] == want), None)
-                    else:
-                        want = tuple(want)
-                    if want in pending:
-                        choice = want
-                    else:
-                        state["diverged"] = True
-                trace.append((enabled, choice))
-                grant(choice)
-            obs = []
-            for i, pr in enumerate(procs):
-                pr.wait()
-                with open(os.path.join(invs[i], "stdout"), "rb") as f:
-                    out = f.read()
-                with open(os.path.join(invs[i], "stderr"), "rb") as f:
-                    err = f.read()
-                o = sb.collect(invs[i], pr.returncode, out, err)
-                o["outstanding_at_exit"] = outstanding.get(i, [])
-                o["fault_delivered"] = i in delivered
-                obs.append(o)
-            after = snapshot(sb.d)
-            tmpleft = sorted(os.listdir(os.path.join(sb.run, "tmp")))
-            return {"obs": obs, "before": before, "after": after, "trace": trace, "granted": granted, "tmpleft": tmpleft,
-                    "diverged": state["diverged"] or len(trace) < len(prefix), "degraded": state["degraded"],
-                    "cancelled": cancelled}
-        finally:
-            for p in pending.values():
-                try:
-                    os.kill(p.pid, 9)
-                except OSError:
-                    pass
-                p.conn.close()
-            for pr in procs:
-                if pr.poll() is None:
-                    pr.kill()
-                    pr.wait()
-            for c in set(_pchildren(me)) | orphans:
-                if c in foreign or c in driver_pids:
-                    continue
-                try:
-                    if _pstate(c) not in (None, "Z", "X"):
-                        os.kill(c, 9)
-                    os.waitpid(c, 0)
-                except OSError:
-                    pass
-            if srv is not None:
-                srv.close()
-            sb.destroy()
-
-
-def explore(run_once, root=(), path_only=False, max_runs=6000):
-    """Stateless depth-first exploration of the choice tree below `root`: returns ([(prefix, result)], truncated).
-    run_once(prefix) -> Orchestrator.run() result.  path_only: just the default path below root (the caller
-    splits the rest with siblings())."""
-    out, stack = [], [tuple(root)]
-    while stack:
-        pre = stack.pop()
-        res = run_once(pre)
-        out.append((pre, res))
-        if path_only:
-            break
-        if len(out) + len(stack) > max_runs:
-            return out, True
-        stack += reversed(siblings(pre, res))
-    return out, False
-
-
-def siblings(pre, res):
-    """The roots of the unexplored subtrees hanging off the path of one run (disjoint, and with the path itself a
-    partition of the subtree below `pre`)."""
-    if res.get("diverged") or res.get("timeout"):
-        return []
-    tr = res["trace"]
-    out = []
-    for idx in range(len(pre), len(tr)):
-        enabled, chosen = tr[idx]
-        for alt in enabled:
-            if alt != chosen:
-                out.append(tuple(c for _, c in tr[:idx]) + (alt,))
-    return out
-
-
-# ----------------------------------------------------------------------------------------------------
-# part 1 worker: one shape, no fault + every (step x fault)
-# ----------------------------------------------------------------------------------------------------
-def run_shape(cfg, shape, faults, rundir, force_orch=False):
-    """Returns dict(runs, viol=[(fault, deviation, detail, via)], counters, base_steps).  via = "free" (the driver
-    ran unhindered) or "orch" (under the step scheduler, used when the driver overlaps its own steps)."""
-    res = {"runs": 0, "viol": [], "cnt": {}, "steps": [], "ntemps": 0, "status": None, "orch_error": None}
-
-    def bump(cnt):
-        for k, v in cnt.items():
-            res["cnt"][k] = res["cnt"].get(k, 0) + v
-
-    def one(fault, base_steps, cc1_slots):
-        sb = Sandbox(cfg, rundir)
-        try:
-            sb.populate(shape)
-            before = snapshot(sb.d)
-            obs = sb.run_one(shape.argv(), fault)
-            after = snapshot(sb.d)
-        finally:
-            sb.destroy()
-        res["runs"] += 1
-        res["ntemps"] += obs["ntemps"]
-        devs, cnt = judge(shape, fault, obs, before, after, base_steps, cc1_slots)
-        bump(cnt)
-        return obs, devs
-
-    obs0, devs0 = one(None, None, None)
-    res["status"] = obs0["status"]
-    base_steps = [(s["kind"], s["k"]) for s in obs0["steps"]]
-    res["steps"] = base_steps
-    cc1_slots = []
-    for s in obs0["steps"]:
-        if s["kind"] == "cc1":
-            a = s["argv"]
-            inp = a[a.index("-cc1-input") + 1] if "-cc1-input" in a and a.index("-cc1-input") + 1 < len(a) else ""
-            cc1_slots.append(shape.slot_of_input(inp))
-    model_steps = sorted(k for k, _ in shape.steps)
-    if obs0["status"] == 0 and sorted(k for k, _ in base_steps) != model_steps:
-        res["cnt"]["steps_differ_from_model"] = 1
-    overlap = obs0["overlap"] or force_orch
-    free_viol = [(None, dv, detail, "free") for dv, detail in devs0]
-    if not overlap:
-        if devs0:
-            res["viol"] += free_viol
-            res["cnt"]["fault_enumeration_skipped_on_violating_base"] = 1
-            return res
-        for (kind, k) in base_steps:
-            for how in faults:
-                fault = (kind, k, how)
-                obs, devs = one(fault, base_steps, cc1_slots)
-                overlap = overlap or obs["overlap"]
-                free_viol += [(fault, dv, detail, "free") for dv, detail in devs]
-    if not overlap:
-        res["viol"] += free_viol
-        return res
-    # The driver runs steps of its own concurrently: what a free run shows depends on which step finishes first.
-    # Redo the enumeration under the step scheduler, every completion order of simultaneously blocked steps, without
-    # fault and with a fault at every step; the free-running verdicts are superseded (they are the same runs under
-    # an uncontrolled order).
-    res["cnt"]["shapes_with_overlapping_steps"] = 1
-    try:
-        run_shape_orch(cfg, shape, faults, rundir, res, base_steps, cc1_slots, bump)
-    except core.HarnessError as e:
-        if isinstance(e, OrchTimeout):
-            res["cnt"]["timeouts"] = res["cnt"].get("timeouts", 0) + 1
-        else:
-            res["orch_error"] = "%s: %s" % (shape.key(), e)
-        res["viol"] += free_viol        # fall back to what the free runs showed (confirmed serially like everything)
-    return res
-
-
-def run_shape_orch(cfg, shape, faults, rundir, res, base_steps, cc1_slots, bump):
-    orch = Orchestrator(cfg, rundir)
-
-    def sweep(fault):
-        def once(pre):
-            return orch.run(lambda sb: sb.populate(shape), [shape.argv()], pre, {0: fault} if fault else {}, shape.inputs)
-        runs, truncated = explore(once)
-        if truncated:
-            res["cnt"]["order_exploration_truncated"] = res["cnt"].get("order_exploration_truncated", 0) + 1
-        nviol = 0
-        for pre, r in runs:
-            res["runs"] += 1
-            o = r["obs"][0]
-            o["tmpdir_left"] = r["tmpleft"]
-            res["ntemps"] += o["ntemps"]
-            devs, cnt = judge(shape, fault, o, r["before"], r["after"], base_steps, cc1_slots)
-            cnt = dict(cnt, orchestrated_runs=1, schedule_divergences=int(r["diverged"]), quiescence_degraded=r["degraded"])
-            bump({k: v for k, v in cnt.items() if v})
-            order = " ".join(label_text(c)[2:] for _, c in r["trace"])
-            for dv, detail in devs:
-                res["viol"].append((fault, dv, "%s [steps completed in the order: %s]" % (detail, order), "orch"))
-                nviol += 1
-        return runs, nviol
-
-    runs0, nviol0 = sweep(None)
-    bump({"completion_orders_without_fault": len(runs0)})
-    if nviol0:
-        res["cnt"]["fault_enumeration_skipped_on_violating_base"] = 1
-        return
-    points = []         # (kind, unit, ordinal) of every step seen in any order
-    for _, r in runs0:
-        for (d, kind, unit), k in r["granted"]:
-            if (kind, unit) not in [(a, b) for a, b, _ in points]:
-                points.append((kind, unit, k))
-    for kind, unit, k in points:
-        for how in faults:
-            # exec-not-found is arranged through the environment and addressed by ordinal (see c14_shim.c)
-            sweep((kind, k, how) if how == "noexec" else (kind, unit, how))
-
-
-def _shape_batch(args):
-    cfg, specs, faults, wid = args
-    iso = isolate_tmp(cfg)
-    out = []
-    for spec in specs:
-        shape = M.Shape(*spec)
-        r = run_shape(cfg, shape, faults, os.path.join(cfg["root"], "w%d" % wid))
-        r["iso"] = iso
-        out.append((spec, r))
-    return out
-
-
-# ----------------------------------------------------------------------------------------------------
-# part 2: schedules
-# ----------------------------------------------------------------------------------------------------
-SCENARIOS = {
-    # name: (files, [argv per driver], {driver: [its output paths]}, shared-output?)
-    "link-distinct": (["a.c", "b.c"], [["-o", "pa", "a.c"], ["-o", "pb", "b.c"]]),
-    "link-same-input-same-output": (["a.c"], [["-o", "pa", "a.c"], ["-o", "pa", "a.c"]]),
-    "c-default-names": (["a.c", "b.c"], [["-c", "a.c"], ["-c", "b.c"]]),
-    "c-overlap-input": (["a.c", "b.c"], [["-c", "a.c", "b.c"], ["-c", "-o", "x.o", "b.c"]]),
-    "S-and-link": (["a.c", "b.c"], [["-S", "-o", "a.s", "a.c"], ["-o", "pb", "b.c"]]),
-    "c3": (["a.c", "b.c", "c.c"], [["-c", "a.c"], ["-c", "b.c"], ["-c", "c.c"]]),
-    "c-same-output-different-input": (["a.c", "b.c"], [["-c", "-o", "x.o", "a.c"], ["-c", "-o", "x.o", "b.c"]]),
-    "link3": (["a.c", "b.c"], [["-o", "pa", "a.c"], ["-o", "pb", "b.c"], ["-o", "pa2", "a.c"]]),
-}
-SCEN_FILES = {
-    "a.c": b"int vp_a(void){return 11;}\nint main(void){return 0;}\n",
-    "b.c": b"int vp_b(void){return 22;}\nint main(void){return 0;}\n",
-    "c.c": b"int vp_c(void){return 33;}\nint main(void){return 0;}\n",
-}
-SCEN_PLAN = {
-    "quick": [("link-distinct", ["exit1", "kill"]), ("link-same-input-same-output", ["exit1"]),
-              ("c-default-names", ["kill", "partial"]), ("c-overlap-input", ["exit1"]), ("S-and-link", ["exit1"])],
-    "thorough": [("link-distinct", ["exit1", "segv", "kill", "noexec", "partial"]),
-                 ("link-same-input-same-output", ["exit1", "kill", "partial"]),
-                 ("c-default-names", ["exit1", "kill", "noexec", "partial"]), ("c-overlap-input", ["exit1", "kill"]),
-                 ("S-and-link", ["exit1", "kill"]), ("c3", ["exit1", "kill"]), ("link3", []),
-                 ("c-same-output-different-input", ["exit1"])],
-}
-
-
-def _writer(files):
-    def prepare(sb):
-        for name, data in files.items():
-            with open(os.path.join(sb.d, name), "wb") as f:
-                f.write(data)
-    return prepare
-
-
-def solo_result(cfg, rundir, files, argv, fault):
-    """One driver alone under the scheduler (its own overlapping steps, if any, in canonical order)."""
-    r = Orchestrator(cfg, rundir).run(_writer(files), [argv], (), {0: fault} if fault else {}, files)
-    return r["obs"][0], r["after"], r["granted"]
-
-
-def _sched_batch(args):
-    """One scenario x one fault assignment x a list of subtree roots of the schedule tree.  mode "path": only the
-    default path below each root is run (the caller splits the remainder); "dfs": the whole subtree.
-    Returns [(root, choices, diverged, degraded, deviations, roots of the unexplored siblings)]."""
-    cfg, scen, fault_assign, roots, mode, isolate, wid = args
-    if isolate:
-        isolate_tmp(cfg)
-    files = {n: SCEN_FILES[n] for n in SCENARIOS[scen][0]}
-    cmds = SCENARIOS[scen][1]
-    rundir = os.path.join(cfg["root"], "s%d" % wid)
-    orch = Orchestrator(cfg, rundir)
-    # Solo reference runs are made in the very same directory path as the concurrent runs: the assembler records
-    # the working directory in the object's line table, so outputs are comparable only for equal paths.
-    solos = []
-    for i, argv in enumerate(cmds):
-        o, after, eff = solo_result(cfg, rundir, files, argv, fault_assign.get(i))
-        solos.append((o["status"], {p: v for p, v in after.items() if p not in files}))
-
-    def once(pre):
-        return orch.run(_writer(files), cmds, pre, fault_assign, files)
-    out = []
-    for root in roots:
-        runs, truncated = explore(once, root, path_only=(mode == "path"))
-        for pre, r in runs:
-            out.append((pre, tuple(c for _, c in r["trace"]), r["diverged"] or truncated, r["degraded"],
-                        _sched_judge(files, solos, r), siblings(pre, r) if mode == "path" else []))
-    return out
-
-
-def _sched_judge(files, solos, r):
-    obs, after, tmpleft = r["obs"], r["after"], r["tmpleft"]
-    devs = []
-    for i, o in enumerate(obs):
-        if not o["driver_seen"]:
-            raise core.HarnessError("interposer not loaded in concurrent driver")
-        if b"c14_shim:" in o["stderr"]:
-            raise core.HarnessError("shim failure under scheduling: %r" % o["stderr"][-300:])
-        solo_status, solo_files = solos[i]
-        if (o["status"] == 0) != (solo_status == 0):
-            devs.append((i, "status-differs-from-solo", "driver %d: exit %s, solo run: %s" % (i, o["status"], solo_status)))
-        if o["status"] == 0 and o["outstanding_at_exit"]:
-            devs.append((i, "exit0-with-step-outstanding", "driver %d left with status 0 before %s had run" % (i, ", ".join(o["outstanding_at_exit"]))))
-        if o["leaks"]:
-            devs.append((i, "temp-left", "driver %d left %s" % (i, [p for _, p in o["leaks"]])))
-    # every file in the directory must be what one of the drivers that writes it produces alone
-    for p in sorted(set(after) - set(files)):
-        cands = [s[1].get(p) for s in solos if s[1].get(p) is not None]
-        if not cands:
-            devs.append((-1, "unexpected-file", "%s exists after the concurrent run; no solo run creates it" % p))
-        elif after[p] not in cands:
-            devs.append((-1, "output-differs-from-solo", "%s: %s, solo: %s" % (p, show(after[p]), [show(c) for c in cands])))
-    for i, s in enumerate(solos):
-        for p, v in s[1].items():
-            if p not in files and p not in after:
-                devs.append((i, "output-missing-vs-solo", "%s produced by driver %d alone is absent" % (p, i)))
-    if tmpleft:
-        devs.append((-1, "temp-left", "TMPDIR: %s" % tmpleft))
-    return devs
-
-
-# ----------------------------------------------------------------------------------------------------
-# main
-# ----------------------------------------------------------------------------------------------------
-def shape_specs(tier):
-    specs, undefined = [], 0
-    shapes = list(M.enumerate_shapes(ALPHABET[tier]))
-    shapes += [M.Shape(mode, o, kinds, "w") for mode in ("c", "link") for o in (None, "file") for kinds in EXTRA_LISTS[tier]]
-    seen = set()
-    for sh in shapes:
-        spec = (sh.mode, sh.o, sh.kinds, sh.outloc)
-        if spec in seen:
-            continue
-        seen.add(spec)
-        if not sh.defined:
-            undefined += 1
-            continue
-        specs.append(spec)
-    return specs, undefined
-
-
-def fault_class(fault):
-    return "none" if not fault else "%s:%s" % (fault[0], fault[2])
-
-
-REPLAY = "python3 $VERIF/checks/c14.py --replay-case case.json"
-
-
-def fault_text(fault):
-    return "none" if not fault else "%s#%s:%s" % tuple(fault)
-
-
-def _debug(ctx, what):
-    if os.environ.get("C14_DEBUG"):
-        sys.stderr.write("[c14 %6.1fs] %s\n" % (time.time() - ctx.t0, what))
-
-
-def run(ctx):
-    cfg = build_tools(ctx.chibicc, ctx.include, ctx.work)
-    faults = FAULTS[ctx.tier]
-    _debug(ctx, "tools built")
-
-    # ---------------- part 1 ----------------
-    specs, undefined = shape_specs(ctx.tier)
-    order = list(range(len(specs)))
-    if ctx.seed:
-        import random
-        random.Random(ctx.seed).shuffle(order)
-    nb = core.NPROC * 6
-    batches = [[specs[j] for j in order[i::nb]] for i in range(nb)]
-    batches = [b for b in batches if b]
-    results = []
-    done_batches = 0
-    # batches are submitted in waves so the deadline can stop the enumeration between waves
-    wave = core.NPROC * 2
-    for w0 in range(0, len(batches), wave):
-        if ctx.out_of_time(reserve=BUDGET[ctx.tier] * 0.35):
-            ctx.incomplete("part 1 stopped by the deadline after %d of %d shape batches" % (done_batches, len(batches)))
-            break
-        args = [(cfg, b, faults, w0 + i) for i, b in enumerate(batches[w0:w0 + wave])]
-        for r in core.pmap(_shape_batch, args):
-            results += r
-        done_batches += len(args)
-        _debug(ctx, "part 1: %d of %d batches" % (done_batches, len(batches)))
-
-    runs = ntemps = 0
-    counters = {}
-    viol = []       # (spec, fault, deviation, detail, via)
-    outcome_classes = set()
-    fault_points = 0
-    nontrivial = set()
-    orch_errors = []
-    nonlast_failing = {}     # failure kind -> number of multi-input shapes with such a unit in a non-last position
-    for spec, r in results:
-        runs += r["runs"]
-        ntemps += r["ntemps"]
-        fault_points += len(r["steps"]) * len(faults)
-        for k, v in r["cnt"].items():
-            counters[k] = counters.get(k, 0) + v
-        outcome_classes.add((spec[0], r["status"] == 0, len(r["steps"])))
-        if r["steps"]:
-            nontrivial.add(spec)
-        if r.get("orch_error"):
-            orch_errors.append(r["orch_error"])
-        if spec[0] == "link" or (spec[0] == "c" and "o_bad" not in spec[2]):
-            for k in set(spec[2][:-1]) & NONLAST_FAILURE_KINDS:
-                if all(k2 in GOOD_KINDS for k2 in spec[2][spec[2].index(k) + 1:]):
-                    nonlast_failing[k] = nonlast_failing.get(k, 0) + 1
-        for fault, dv, detail, via in r["viol"]:
-            viol.append((spec, fault, dv, detail, via))
-    if runs == 0 or len(outcome_classes) < 4:
-        raise core.HarnessError("vacuous enumeration: %d runs, outcome classes %s" % (runs, outcome_classes))
-    if ntemps == 0:
-        raise core.HarnessError("no temporary file creation was observed in any run: the temp-file clause would be vacuous")
-    if not any(r["status"] == 0 for _, r in results) or not any(r["status"] not in (0, None) for _, r in results):
-        raise core.HarnessError("vacuous: all commands succeeded or all failed")
-    if ctx.exhaustive and set(nonlast_failing) != NONLAST_FAILURE_KINDS:
-        raise core.HarnessError("vacuous: no input list with a failing unit followed only by good ones for %s"
-                                % sorted(NONLAST_FAILURE_KINDS - set(nonlast_failing)))
-
-    # Signature = deviation x minimal input-kind set x the modes and fault classes that show it.  Within one
-    # (mode, -o, fault class) cell a case is attributed to a minimal violating kind set; cells sharing kind set and
-    # deviation are merged into one signature that lists their modes and faults ("cc1:*" = every enumerated way
-    # of failing that step).  The -o / output-location dimensions go into the description only.
-    def compress_faults(fcs):
-        per = {}
-        for fc in fcs:
-            k, _, how = fc.partition(":")
-            per.setdefault(k, set()).add(how)
-        parts = []
-        for k in sorted(per):
-            parts.append(k if k == "none" else "%s:%s" % (k, "*" if per[k] >= set(faults) else "+".join(sorted(per[k]))))
-        return ",".join(parts)
-
-    nconfirmed = 0
-    groups = {}
-    for spec, fault, dv, detail, via in viol:
-        mode, o, kinds, outloc = spec
-        groups.setdefault(dv, {}).setdefault((mode, o or "absent", fault_class(fault)), []).append((frozenset(kinds), spec, fault, detail, via))
-    for dv, cells in sorted(groups.items()):
-        attributed = []     # (attr kinds, mode, fault class, spec, fault, detail, via)
-        for (mode, o, fc), items in sorted(cells.items()):
-            minimal = []
-            for ks in sorted(set(i[0] for i in items), key=lambda s: (len(s), sorted(s))):
-                if not any(m <= ks for m in minimal):
-                    minimal.append(ks)
-            # under an injected fault, a deviation that also shows with good inputs only does not depend on the inputs
-            anyin = fc != "none" and any(it[0] <= GOOD_KINDS for it in items)
-            for ks, spec, fault, detail, via in items:
-                attributed.append((frozenset(["any"]) if anyin else next(m for m in minimal if m <= ks), mode, fc, spec, fault, detail, via))
-        modes_of, faults_of = {}, {}
-        for attr, mode, fc, spec, fault, detail, via in attributed:
-            modes_of.setdefault(attr, set()).add(mode)
-            faults_of.setdefault(attr, set()).add(fc)
-        by_sig = {}
-        for attr, mode, fc, spec, fault, detail, via in sorted(attributed, key=lambda t: (t[2] != "none", len(t[3][2]), t[3][2], t[3][0], str(t[3][1]), t[3][3], str(t[4]), t[5])):
-            sig = "C14|%s|inputs=%s|modes=%s|fault=%s" % (dv, "+".join(sorted(attr)), "+".join(sorted(modes_of[attr])),
-                                                        compress_faults(faults_of[attr]))
-            by_sig.setdefault(sig, []).append((spec, fault, detail, via))
-        confirmed = []
-        for sig, cases in sorted(by_sig.items()):
-            # Same input must fail twice, the second time with nothing else running: part 1 runs 16 drivers in
-            # parallel, and a driver whose temporaries collide across processes misbehaves there irreproducibly.
-            # Interference is part 2's business, where it is deterministic.
-            hit = None
-            tried = set()
-            for spec, fault, detail, via in cases:
-                if (spec, fault) in tried:
-                    continue
-                if len(tried) == 3:
-                    break
-                tried.add((spec, fault))
-                try:
-                    r = run_shape(cfg, M.Shape(*spec), [fault[2]] if fault else [], os.path.join(cfg["root"], "confirm"),
-                                  force_orch=(via == "orch"))
-                except core.HarnessError:
-                    continue
-                if any(dv2 == dv and (f2 or None) == fault for f2, dv2, _, _ in r["viol"]):
-                    hit = (spec, fault, detail, via)
-                    break
-            if hit:
-                confirmed += [(sig,) + hit] + [(sig,) + c for c in cases if c != hit]
-            else:
-                ctx.cover(part1_cases_not_reproduced_serially=len(cases))
-        for sig, spec, fault, detail, via in confirmed:
-            sh = M.Shape(*spec)
-            case = {"part": 1, "spec": [spec[0], spec[1], list(spec[2]), spec[3]], "fault": list(fault) if fault else None,
-                    "deviation": dv, "orch": via == "orch"}
-            desc = "chibicc %s  [inputs %s; output location %s; fault %s] -> %s: %s" % (
-                " ".join(sh.argv()), ",".join(spec[2]), spec[3], fault_text(fault), dv, detail)
-            if ctx.violation(sig, desc, files={"case.json": json.dumps(case, indent=1), "README.txt": desc + "\n\ninput kinds are defined in "
-                                               "models/c14_driver.py (c_dir = a directory named *.c, *_nx = nonexistent, ...);\n"
-                                               "a fault is <step kind>#<ordinal or input the step works on>:<how>;\n"
-                                               "replay: CHIBICC=<binary> CHIBICC_DIR=<tree> python3 checks/c14.py --replay-case case.json\n"},
-                             replay=REPLAY):
-                nconfirmed += 1
-
-    if counters.get("timeouts"):
-        ctx.incomplete("%d driver runs hit the %d s harness timeout and were not judged" % (counters["timeouts"], RUN_TIMEOUT))
-    if orch_errors:
-        # the step scheduler failed on a driver that overlaps its own steps; the free-running results stand in
-        if not nconfirmed:
-            raise core.HarnessError("step scheduler failed in part 1: %s" % orch_errors[0])
-        ctx.incomplete("step scheduler failed for %d shapes in part 1 (first: %s); their free-running results were used"
-                       % (len(orch_errors), orch_errors[0][:300]))
-    ctx.cover(workers_have_private_tmp=all(r.get("iso") for _, r in results))
-    ctx.cover(evaluations=runs, shapes=len(results), shapes_undefined_by_property=undefined,
-              fault_points_enumerated=fault_points, temp_creations_observed=ntemps,
-              distinct_nontrivial=len(nontrivial), **counters)
-    ctx.cover(shapes_with_failing_unit_before_good_ones={k: nonlast_failing[k] for k in sorted(nonlast_failing)})
-
-    _debug(ctx, "part 1 judged and confirmed")
-    # ---------------- part 2 ----------------
-    # Harness trouble here must not hide what part 1 has already established (each of its violations was reproduced
-    # serially and is replayed once more by ctx.finish()): it is then recorded as incompleteness, not as exit 2.
-    try:
-        run_part2(ctx, cfg)
-    except Exception as e:
-        if not nconfirmed:
-            raise
-        ctx.incomplete("part 2 (schedules) aborted by a harness error, part 1 violations are reported: %s: %s"
-                       % (type(e).__name__, str(e)[:400]))
-    _debug(ctx, "part 2 done")
-    ctx.cover(rule="a case is one driver invocation (shape x fault point [x completion order of overlapping steps]) or "
-                   "one complete schedule; non-trivial = the command shape makes the driver start at least one "
-                   "subprocess (counted per distinct shape)",
-              fault_kinds=faults, alphabet={str(k): v for k, v in ALPHABET[ctx.tier].items()},
-              extra_lists=[list(x) for x in EXTRA_LISTS[ctx.tier]])
-    for spec, r in results[:200]:
-        if len(r["steps"]) >= 3:
-            ctx.sample({"argv": M.Shape(*spec).argv(), "outloc": spec[3], "steps": ["%s#%d" % s for s in r["steps"]],
-                        "runs": r["runs"], "no_fault_status": r["status"]}, limit=4)
-    ctx.assume("faults are injected one at a time (single point of failure); a fault makes the step die before doing "
-               "its work, or (partial) after writing 7 bytes to its output")
-    ctx.assume("'partial' faults of the front end under -S / -E -o write to the requested output itself; the content of "
-               "that output is then not judged (the write is the injected fault), everything else is")
-    ctx.assume("unreadable input is modelled by a directory and a nonexistent path (the checks run as root); unwritable "
-               "output by a nonexistent parent directory (-o) or a directory occupying the default output name")
-    ctx.assume("schedules are explored at subprocess-step granularity: one step runs at a time; a driver may have "
-               "several steps waiting at once, every order of granting them is explored")
-    ctx.assume("a driver that runs its own steps concurrently is judged in part 1 under every completion order of "
-               "the simultaneously waiting steps (steps are serialised); exec-not-found at a step that starts while "
-               "an earlier step of the same kind is still waiting cannot be arranged and is counted as not reached")
-    ctx.assume("a pre-existing output that is deleted (not rewritten) when its translation unit fails is accepted")
-
-
-def run_part2(ctx, cfg):
-    sched_runs = 0
-    eff_seen = set()
-    sched_viol = []
-    frontier = []       # (scenario, fault assignment, root)
-    for scen, fkinds in SCEN_PLAN[ctx.tier]:
-        fnames, cmds = SCENARIOS[scen]
-        files = {n: SCEN_FILES[n] for n in fnames}
-        # solo runs (no fault) give each driver's steps
-        frontier.append((scen, {}, ()))
-        for i, argv in enumerate(cmds):
-            o, after, granted = solo_result(cfg, os.path.join(cfg["root"], "solo"), files, argv, None)
-            if o["status"] != 0:
-                raise core.HarnessError("scenario %s driver %d fails alone: %s" % (scen, i, o["stderr"][-300:]))
-            for (_, kind, unit), k in granted:
-                for how in fkinds:
-                    frontier.append((scen, {i: (kind, k, how) if how == "noexec" else (kind, unit, how)}, ()))
-    if ctx.out_of_time(reserve=20):
-        ctx.incomplete("part 2 (schedules) not run: deadline")
-        frontier = []
-    # The schedule tree of a (scenario, fault) pair is discovered while it is walked: a level of "path" jobs runs the
-    # default path below each root and returns the roots of the sibling subtrees, which the next level walks;
-    # the last level walks its subtrees completely.
-    split_levels = {"quick": 1, "thorough": 2}[ctx.tier]
-    _debug(ctx, "part 2: %d (scenario, fault) pairs" % len(frontier))
-    level, wid = 0, 0
-    divergences = degraded = 0
-    while frontier:
-        mode = "path" if level < split_levels else "dfs"
-        if ctx.out_of_time(reserve=20):
-            ctx.incomplete("part 2 (schedules) stopped by the deadline at tree level %d" % level)
-            break
-        per = {}
-        for scen, fa, root in frontier:
-            per.setdefault((scen, tuple(sorted(fa.items()))), []).append(root)
-        jobs = []
-        for (scen, fkey), roots in per.items():
-            ngroups = min(len(roots), 4 if level else 1)
-            for g in range(ngroups):
-                jobs.append((cfg, scen, dict(fkey), roots[g::ngroups], mode, True, wid))
-                wid += 1
-        frontier = []
-        for job, res in zip(jobs, core.pmap(_sched_batch, jobs)):
-            scen, fa = job[1], job[2]
-            for root, choices, diverged, deg, devs, sibs in res:
-                sched_runs += 1
-                divergences += int(diverged)
-                degraded += deg
-                eff_seen.add((scen, tuple(sorted(fa.items())), choices))
-                for who, dv, detail in devs:
-                    sched_viol.append((scen, fa, choices, dv, detail))
-                frontier += [(scen, fa, sb) for sb in sibs]
-        level += 1
-        _debug(ctx, "part 2: level %d done, %d runs so far, %d subtrees to go" % (level, sched_runs, len(frontier)))
-    if sched_runs and len(eff_seen) < 20:
-        raise core.HarnessError("vacuous schedule exploration: %d distinct effective schedules" % len(eff_seen))
-    plan = dict(SCEN_PLAN[ctx.tier])
-    fsets = {}
-    for scen, fa, sch, dv, detail in sched_viol:
-        fsets.setdefault((scen, dv), set()).add(fault_class(next(iter(fa.values())) if fa else None))
-
-    def compress2(scen, fcs):
-        per = {}
-        for fc in fcs:
-            k, _, how = fc.partition(":")
-            per.setdefault(k, set()).add(how)
-        return ",".join(k if k == "none" else "%s:%s" % (k, "*" if per[k] >= set(plan[scen]) else "+".join(sorted(per[k])))
-                        for k in sorted(per))
-    confirmed_sig = {}
-    for scen, fa, sch, dv, detail in sorted(sched_viol, key=lambda t: (t[0], t[3], bool(t[1]), str(sorted(t[1].items())), t[2])):
-        sig = "C14|concurrent|%s|scenario=%s|fault=%s" % (dv, scen, compress2(scen, fsets[(scen, dv)]))
-        if sig not in confirmed_sig:
-            # same schedule must fail twice, the second time with nothing else running
-            again = _sched_batch((cfg, scen, fa, [sch], "path", False, 99999))
-            confirmed_sig[sig] = any(dv2 == dv for rec in again for _, dv2, _ in rec[4])
-            if not confirmed_sig[sig]:
-                ctx.cover(part2_cases_not_reproduced_serially=1)
-        if not confirmed_sig[sig]:
-            continue
-        case = {"part": 2, "scenario": scen, "faults": {str(k): list(v) for k, v in fa.items()}, "schedule": [list(l) for l in sch], "deviation": dv}
-        desc = "scenario %s: drivers %s in one directory, steps granted in the order %s (driver:step(input)), fault %s -> %s: %s" % (
-            scen, " || ".join("chibicc " + " ".join(c) for c in SCENARIOS[scen][1]), " ".join(label_text(l) for l in sch),
-            {k: fault_text(v) for k, v in fa.items()} or "none", dv, detail)
-        ctx.violation(sig, desc, files={"case.json": json.dumps(case, indent=1), "README.txt": desc + "\n\nreplay: CHIBICC=<binary> "
-                                        "CHIBICC_DIR=<tree> python3 checks/c14.py --replay-case case.json\n"}, replay=REPLAY)
-    ctx.cover(schedules=sched_runs, schedules_distinct_effective=len(eff_seen), schedule_scenarios=len(SCEN_PLAN[ctx.tier]))
-    if divergences:
-        ctx.cover(schedule_divergences=divergences)
-    if degraded:
-        ctx.cover(quiescence_degraded=degraded)
-    ctx.cover(evaluations=sched_runs)
-
-
-# ----------------------------------------------------------------------------------------------------
-# replay of a single case:  python3 checks/c14.py --replay-case case.json   (env CHIBICC, CHIBICC_DIR)
-# ----------------------------------------------------------------------------------------------------
-def replay_case(path):
-    import tempfile
-    case = json.load(open(path))
-    chibicc = os.environ["CHIBICC"]
-    tree = os.environ.get("CHIBICC_DIR") or os.path.dirname(chibicc)
-    root = tempfile.mkdtemp(prefix="vp_C14r_")
-    try:
-        cfg = build_tools(chibicc, os.path.join(tree, "include"), root)
-        if case["part"] == 1:
-            spec = case["spec"]
-            shape = M.Shape(spec[0], spec[1], tuple(spec[2]), spec[3])
-            fault = tuple(case["fault"]) if case["fault"] else None
-            r = run_shape(cfg, shape, [fault[2]] if fault else [], os.path.join(root, "w"))
-            for f, dv, detail in r["viol"]:
-                if dv == case["deviation"] and (f or None) == fault:
-                    print("reproduced: %s %s %s" % (shape.key(), f, detail))
-                    return 1
-            return 0
-        scen = case["scenario"]
-        fnames, cmds = SCENARIOS[scen]
-        files = {n: SCEN_FILES[n] for n in fnames}
-        fa = {int(k): tuple(v) for k, v in case["faults"].items()}
-        res = _sched_batch((cfg, scen, fa, [tuple(case["schedule"])], False, 0))
-        for sch, eff, extra, devs in res:
-            for who, dv, detail in devs:
-                if dv == case["deviation"]:
-                    print("reproduced: %s" % detail)
-                    return 1
-        return 0
-    finally:
-        shutil.rmtree(root, ignore_errors=True)
-
-
-if __name__ == "__main__":
     if len(sys.argv) == 3 and sys.argv[1] == "--replay-case":
         try:
             sys.exit(replay_case(sys.argv[2]))
         except core.HarnessError as e:
             print("HARNESS-ERROR: %s" % e)
             sys.exit(2)
+        except Exception:       # a crash of the replay is not a reproduction (contract: exit 1 iff it reproduces)
+            import traceback
+            traceback.print_exc()
+            print("HARNESS-ERROR: replay crashed")
+            sys.exit(0)
     print(__doc__)
     sys.exit(2)
